@@ -46,6 +46,16 @@ CHECKS = {
             'to 6/7 slots in all three separator styles, with a recording custom function as the observer.',
             'Trusted: Python int()/Fraction as the meaning of a decimal spelling; the hand-written token corpus. One '
             'known finding (string content ending in a backslash followed later by the same quote).', 'DESIGN.md §5 C05'),
+    'C08': ('exhaustive enumeration of error producers x operator contexts x observers, of all ordered code pairs x '
+            'operators, and of all small expression trees with every subset of leaves replaced by error values, against '
+            'a reference error algebra; ' + K3,
+            'Every way an error value can meet an operator (11 operators, either side, both sides with different codes, '
+            'unary minus, two/three nesting levels) is enumerated for 40 producers of five kinds and observed at the top '
+            'level and through all six trapping functions; trees with every error/non-error leaf assignment check the '
+            'left-most-wins rule at depth.',
+            'Trusted: the reference algebra (operators strict, left operand first, literal aborts). Which code a Python '
+            'exception maps to is not demanded. One known finding (#N/A literal directly followed by "/").',
+            'DESIGN.md §5 C08'),
 }
 
 NOT_YET = 'check not built yet in this session (see DESIGN.md §5 for the planned bounded-exhaustive check)'
